@@ -13,14 +13,23 @@
 //! every euclidean 2D symbol over every isomorphism class of connected D-sets (all labelled
 //! D-sets for n ≤ 3) with v ≤ 6; every 3D symbol with v ∈ {1,2,3,4,6} and spherical tiles and
 //! vertex figures over every isomorphism class of connected D-sets; the corpus, closed under
-//! covers with few sheets (`covers::covers`), and two hard-coded witnesses.
+//! covers with few sheets (`covers::covers`), and hard-coded witnesses; PRODUCTS AND TWISTED
+//! STACKINGS: prisms over the tiles of 2D symbols with v ∈ {1,2,3,4,6} — spherical, euclidean and
+//! hyperbolic bases — with a mirror at mid-height (3n chambers; cap crossing = reflection followed by
+//! an involutive automorphism) or stacked with an automorphism of the base from layer to layer
+//! (6n chambers: translations, glides, screw axes 2₁ 3₁ 4₁ 6₁…6₅).  Over a euclidean base the
+//! result is euclidean by construction (E² × R modulo a discrete cocompact group), so a cover is
+//! demanded (`ptc_corpus`).
 //! Sizes: see `main` and conf/C15.json.
 use rust_dsymbols::covers::covers;
 use rust_dsymbols::delaney2d::toroidal_cover;
 use rust_dsymbols::delaney3d::pseudo_toroidal_cover;
 use rust_dsymbols::dsets::DSet;
 use std::panic::{catch_unwind, AssertUnwindSafe};
-use verif_harness::d3gen::{classes, corpus, euclidean_2d, is_oriented, labelled, parse_symbol, symbols_3d};
+use verif_harness::d3gen::{
+    automorphisms, classes, corpus, curvature2, euclidean_2d, in_domain_3d, is_oriented, labelled, mirror_prisms,
+    parse_symbol, perm_order, stacked_prisms, symbols_2d_cryst, symbols_3d,
+};
 use verif_harness::dsgen::{random_perm1, Tab};
 use verif_harness::{Ctx, Rng};
 
@@ -107,6 +116,8 @@ fn main() {
     let mut ctx = Ctx::from_args();
     let th = ctx.thorough();
     let mut rng = ctx.rng(15);
+    // separate stream for the prism families, so that the older sections keep their samples
+    let mut prng = ctx.rng(1515);
 
     // (0) regression corpus (seeded-change study): euclidean symbols whose orientation-preserving
     //     point group is cyclic of order 4 resp. 6 generated by a rotation of that order — finite
@@ -119,6 +130,28 @@ fn main() {
         ptc(&mut ctx, "ptc_corpus", &s, "witness");
         let vs = variants(&s, &mut rng, 1);
         ptcinv(&mut ctx, &vs, "witness");
+    }
+
+    // (0') seeded-change study round 3: a non-euclidean symbol with a 4-cone and a Z6 quotient whose
+    //      kernel has H1 = Z^3 but unwinds the 4-cone only halfway (mirror prisms over the hyperbolic
+    //      2D symbol <1.1:4:2 4,3 4,2 4:8,4>, orbifold 4222; None expected), and a euclidean symbol
+    //      with group P6_2 — sixfold screw axes, only twofold rotation axes (triangular prisms over
+    //      <1.1:6:2 5 6,3 4 6,2 5 6:3,6> stacked with its automorphism (1 4 5)(2 6 3); a cover must
+    //      be found).  Both are members of the prism families of (4); listed first as regressions.
+    {
+        let b = parse_symbol("<1.1:4:2 4,3 4,2 4:8,4>").expect("4222 base");
+        let id: Vec<usize> = (0..=b.size).collect();
+        let s = mirror_prisms(&b, &id).expect("hyperbolic prisms");
+        ptc(&mut ctx, "ptc", &s, "witness prism hyp");
+        let vs = variants(&s, &mut prng, 1);
+        ptcinv(&mut ctx, &vs, "witness prism hyp");
+        let l = parse_symbol("<1.1:6:2 5 6,3 4 6,2 5 6:3,6>").expect("p2 triangle layer");
+        for tau in [vec![0, 4, 6, 2, 5, 1, 3], vec![0, 5, 3, 6, 1, 4, 2]] {
+            let s = stacked_prisms(&l, &tau).expect("twisted prisms");
+            ptc(&mut ctx, "ptc_corpus", &s, "witness stack euc order=3");
+            let vs = variants(&s, &mut prng, 1);
+            ptcinv(&mut ctx, &vs, "witness stack euc");
+        }
     }
 
     // (1) the known-euclidean corpus: a cover must be found; invariance with 3 renumberings
@@ -181,6 +214,90 @@ fn main() {
                     // every variant is an input in its own right
                     for v in &vs[1..] {
                         ptc(&mut ctx, "ptc_nomodel", v, "variant");
+                    }
+                }
+            }
+        }
+    }
+    // (4) products and twisted stackings over 2D symbols with v ∈ {1,2,3,4,6}.
+    //     class of the base by the sign of its curvature (d3gen's own exact sum); euclidean base ⇒
+    //     the 3D symbol is euclidean ⇒ `ptc_corpus` (a cover is demanded).
+    //     quick:    mirror prisms: n ≤ 2 all; n = 3: spherical + euclidean all, hyperbolic every 4th;
+    //               n = 4: euclidean all, spherical every 8th, hyperbolic every 16th;
+    //               stackings: euclidean bases n ≤ 4 all automorphisms, n = 5, 6 automorphisms of
+    //               order ≥ 3; other bases n ≤ 2 all, n = 3 spherical all, hyperbolic every 8th
+    //     thorough: both families n ≤ 3 all, n = 4 spherical + euclidean all, hyperbolic every 3rd;
+    //               stackings over all euclidean bases n ≤ 6 and, for n = 7, 8, with automorphisms
+    //               of order ≥ 3; invariance (ptcinv) on every 5th member
+    let nprism = if th { 8 } else { 6 };
+    let off = prng.below(48);
+    let mut pserial = 0usize;
+    for n in 1..=nprism {
+        let sets = if n <= 3 { labelled(2, n) } else { classes(2, n) };
+        for t in &sets {
+            let bases = if n <= 4 { symbols_2d_cryst(t) } else { euclidean_2d(t, 6) };
+            for b in bases {
+                if (0..2).any(|i| (1..=b.size).any(|d| ![1, 2, 3, 4, 6].contains(&b.v[i][d]))) {
+                    continue;
+                }
+                let k = curvature2(&b).0;
+                let cls = if k > 0 { "sph" } else if k == 0 { "euc" } else { "hyp" };
+                for (ai, a) in automorphisms(&b).iter().enumerate() {
+                    let o = perm_order(a);
+                    // mirror prisms
+                    if o <= 2 && n <= 4 {
+                        if let Some(p) = mirror_prisms(&b, a).filter(in_domain_3d) {
+                            pserial += 1;
+                            let stride = match (th, n, cls) {
+                                (_, 1..=2, _) => 1,
+                                (true, 3, _) => 1,
+                                (true, _, "hyp") => 3,
+                                (true, _, _) => 1,
+                                (false, 3, "hyp") => 4,
+                                (false, 3, _) => 1,
+                                (false, _, "euc") => 1,
+                                (false, _, "sph") => 8,
+                                (false, _, _) => 16,
+                            };
+                            if (pserial + off) % stride == 0 {
+                                let extra = format!("prism mirror {} base={} aut={} order={}", cls, n, ai, o);
+                                ptc(&mut ctx, if cls == "euc" { "ptc_corpus" } else { "ptc" }, &p, &extra);
+                                if (pserial + off) % (5 * stride) == 0 {
+                                    let vs = variants(&p, &mut prng, 1);
+                                    ptcinv(&mut ctx, &vs, &extra);
+                                }
+                            }
+                        }
+                    }
+                    // stackings
+                    let want = match (th, n, cls) {
+                        (_, 1..=4, "euc") => true,
+                        (true, 5..=6, "euc") => true,
+                        (_, 5..=8, "euc") => o >= 3,
+                        (_, 1..=2, _) => true,
+                        (true, 3, _) => true,
+                        (true, 4, _) => true,
+                        (false, 3, "sph") => true,
+                        (false, 3, _) => true,
+                        _ => false,
+                    };
+                    if want {
+                        if let Some(p) = stacked_prisms(&b, a).filter(in_domain_3d) {
+                            pserial += 1;
+                            let stride = match (th, n, cls) {
+                                (true, 4, "hyp") => 3,
+                                (false, 3, "hyp") => 8,
+                                _ => 1,
+                            };
+                            if (pserial + off) % stride == 0 {
+                                let extra = format!("prism stack {} base={} aut={} order={}", cls, n, ai, o);
+                                ptc(&mut ctx, if cls == "euc" { "ptc_corpus" } else { "ptc" }, &p, &extra);
+                                if (pserial + off) % (5 * stride) == 0 {
+                                    let vs = variants(&p, &mut prng, 1);
+                                    ptcinv(&mut ctx, &vs, &extra);
+                                }
+                            }
+                        }
                     }
                 }
             }
